@@ -83,6 +83,15 @@ def ssoLocation (eps : Option (List (Endpoint α))) (b : α) : Option α :=
   | none => none
   | some eps => (forBinding eps b).head?.map (·.location)
 
+/-- `Saml2Client.prepare_for_negotiated_authenticate`: the first binding of the list to try (the caller's binding, or
+    Redirect then POST) for which the target publishes a single-sign-on location, paired with THAT location. -/
+def negotiate (eps : Option (List (Endpoint α))) : List α → Option (α × α)
+  | [] => none
+  | b :: rest =>
+    match ssoLocation eps b with
+    | some d => some (b, d)
+    | none => negotiate eps rest
+
 /-- Bindings supported by the target for single logout, in order of first appearance. -/
 def supportedBindings (eps : List (Endpoint α)) : List α :=
   (eps.map (·.binding)).eraseDups
